@@ -23,6 +23,15 @@ class DriverError(Exception):
     pass
 
 
+class OutputError(DriverError):
+    """A value PRODUCED BY THE CODE UNDER TEST cannot be logged (not on the exact grid although all inputs were, not finite, or far out
+    of range).  Drivers report it as data -- the event gets exc = "UnloggableOutput" and fails the NoException clause of the property --
+    never as a machinery failure."""
+
+
+CLAMP = 10 ** 8       # certified intervals of outputs that do not fit are clamped here: they then contain no plausible numerator
+
+
 def popcount(x: int) -> int:
     return bin(x).count("1")
 
@@ -134,11 +143,28 @@ def pow2_at_least(x: float) -> float:
     return p
 
 
+def out_exact_arr(a, scale: int) -> list[int]:
+    """exact_arr for values produced by the code under test"""
+    try:
+        return exact_arr(a, scale)
+    except DriverError as ex:
+        raise OutputError(str(ex)) from ex
+
+
+def out_quant_arr(a, grid: float) -> list[int]:
+    try:
+        return quant_arr(a, grid)
+    except (DriverError, ValueError, OverflowError) as ex:
+        raise OutputError(str(ex)) from ex
+
+
 def interval(f: float, den, rel_ulps: float = 64.0, mag: float | None = None, tight: bool = False) -> list[int]:
     """Integer interval certainly containing (true real value approximated by float f) * den,
     where |f - true| <= rel_ulps * 2^-53 * max(|f|, mag).
     tight=False: [floor, ceil] (contains the real number);  tight=True: [ceil, floor] = exactly the INTEGERS of the
     real interval (sound for testing membership of an integer; empty, a > b, when no integer fits)."""
+    if not math.isfinite(float(f)):
+        return [CLAMP, CLAMP]
     m = max(abs(float(f)), float(mag) if mag is not None else 0.0, 1e-300)
     delta = Fraction(rel_ulps) * Fraction(1, 2 ** 53) * Fraction(m)
     den = Fraction(den)
@@ -147,8 +173,10 @@ def interval(f: float, den, rel_ulps: float = 64.0, mag: float | None = None, ti
     if lo > hi:
         lo, hi = hi, lo
     a, b = (math.ceil(lo), math.floor(hi)) if tight else (math.floor(lo), math.ceil(hi))
-    if abs(a) >= LIMIT or abs(b) >= LIMIT:
-        raise DriverError(f"interval for {f}*{den} exceeds the 32-bit budget")
+    if abs(a) >= CLAMP or abs(b) >= CLAMP:
+        # an output of the code under test far outside anything the inputs allow: logged as an interval nothing falls into
+        sgn = -1 if a < 0 else 1
+        return [sgn * CLAMP, sgn * CLAMP]
     return [a, b]
 
 
